@@ -20,7 +20,7 @@ ADDED = {
     "C01": "clauses CompletedByEnds, CompletedByCuts, NoSpuriousFailure; scenarios W3Split/W3Early/TwoCB/TwoAny/Ragged and a generated family; blocking waits and unprojectable states handled; progress reporting on in half of the races.",
     "C02": "a leg on the real Driver.start_benchmark (rows sent to workers partition the clients).",
     "C03": "exact ceil table for ingest-percentage; corpora loaded by the real loader; stale offset-table histories; adapter leg through the real AsyncIoAdapter (tasks sharing an operation); explicit corpora lists.",
-    "C04": "sub-millisecond schedule offsets; element leg (real Allocator/AsyncIoAdapter); completion event inside a throttle wait; wire leg incl. responses cut after the headers.",
+    "C04": "sub-millisecond schedule offsets; element leg (real Allocator/AsyncIoAdapter); completion event inside a throttle wait; wire leg incl. responses cut after the headers and two target hosts; TLS errors among the error outcomes.",
     "C05": "element leg with ramp-up; completion-exposing runners; driver progress leg (clients in lockstep and of any speed).",
     "C06": "driver leg (calculate() calls of the real Driver in simulated races); mixed units within a task.",
     "C07": "generated scenarios; preemption at unlocked accesses to the sampler's deque; high-volume leg; client id observed at the wire.",
@@ -28,13 +28,13 @@ ADDED = {
     "C09": "prep leg (TrackPrep.tla); unsuccessful results and retried connection errors as request faults; lenient tasks next to strict ones; siblings that go on after a failure.",
     "C10": "target-index rules; exists_set_param macro; special characters; parameters used only in index bodies/templates; imported macros and single-quoted collect; base-url per document set; verbatim text of operation parameters inside included parts (IncludedTextVerbatim).",
     "C11": "multi-challenge tracks; emptied parallels; case-sensitive and custom operation-type filters.",
-    "C12": "multi-lifecycle histories incl. restart after a failed start; buffering metrics store (ShutdownMetricsStored); race unknown to the host's race store.",
-    "C13": "several nodes from one Car object; docker provisioning path; locale leg (child interpreter under LC_ALL=C).",
-    "C14": "CRLF corpora; corrupt-payload and over-expanding archives; short bodies; stalled connections; sub-second table age; signatures that tell who left a trusted file.",
+    "C12": "multi-lifecycle histories incl. restart after a failed start; buffering metrics store (ShutdownMetricsStored); race unknown to the host's race store; exhaustive stop-outcome family under the real ProcessLauncher.stop (incl. gone at SIGKILL).",
+    "C13": "several nodes from one Car object; docker provisioning path; locale leg (child interpreter under LC_ALL=C); a data path that cannot be deleted at clean-up.",
+    "C14": "CRLF corpora; corrupt-payload and over-expanding archives; short bodies; stalled connections; sub-second table age; final 3xx answers; signatures that tell who left a trusted file.",
     "C15": "dirty working copy; branches deleted upstream; recorded revision.",
     "C16": "histories on one Retry instance and one shared params dict (ParamsUntouched).",
     "C17": "error body shapes; many-item bulk errors; concrete connection error classes; transport-layer leg through the real RallySyncElasticsearch.",
-    "C18": "failing sub-requests and failed streams (judged after fix f822262); ClientIndependent (solo re-execution); DependentDated; wire leg incl. responses cut after the headers.",
+    "C18": "failing sub-requests and failed streams (judged after fix f822262); ClientIndependent (solo re-execution); DependentDated; wire leg incl. responses cut after the headers and two target hosts.",
     "C19": "bulk items status x _shards x op types; hits.total shapes; error description transcription; dotted member names.",
     "C20": "colliding task/operation names; locale leg (report file under LC_ALL=C).",
 }
